@@ -1647,7 +1647,17 @@ func (p *Posix) CompleteMultipartUpload(ctx context.Context, input *s3.CompleteM
 	d, err := os.Stat(objname)
 
 	// if the versioninng is enabled first create the file object version
-	if p.versioningEnabled() && vEnabled && err == nil && !d.IsDir() {
+	preserveCurrentVersion := p.versioningEnabled() && vEnabled && err == nil && !d.IsDir()
+	if p.versioningEnabled() && p.isBucketVersioningSuspended(vStatus) && err == nil && !d.IsDir() {
+		// with versioning Suspended only the null version is replaced:
+		// a current version that has a version id is preserved as well
+		vIdBytes, err := p.meta.RetrieveAttribute(nil, bucket, object, versionIdKey)
+		if err != nil && !errors.Is(err, meta.ErrNoSuchKey) {
+			return nil, fmt.Errorf("get object versionId: %w", err)
+		}
+		preserveCurrentVersion = len(vIdBytes) != 0
+	}
+	if preserveCurrentVersion {
 		_, err := p.createObjVersion(bucket, object, d.Size(), acct)
 		if err != nil {
 			return nil, fmt.Errorf("create object version: %w", err)
@@ -1793,6 +1803,15 @@ func (p *Posix) CompleteMultipartUpload(ctx context.Context, input *s3.CompleteM
 	err = f.link()
 	if err != nil {
 		return nil, fmt.Errorf("link object in namespace: %w", err)
+	}
+
+	// the new null version is in place: remove the null version
+	// it supersedes from the versioning directory
+	if p.versioningEnabled() && p.isBucketVersioningSuspended(vStatus) {
+		err = p.deleteNullVersionIdObject(bucket, object)
+		if err != nil {
+			return nil, err
+		}
 	}
 
 	// cleanup tmp dirs
@@ -3312,6 +3331,12 @@ func (p *Posix) DeleteObject(ctx context.Context, input *s3.DeleteObjectInput) (
 				err = p.meta.DeleteAttribute(bucket, object, versionIdKey)
 				if err != nil && !errors.Is(err, meta.ErrNoSuchKey) {
 					return nil, fmt.Errorf("delete versionId: %w", err)
+				}
+				// the null delete marker supersedes an older null
+				// version in the versioning directory
+				err = p.deleteNullVersionIdObject(bucket, object)
+				if err != nil {
+					return nil, err
 				}
 			}
 
